@@ -82,6 +82,9 @@ def floors(tier):
         "history:inproc-edit": 2 * n,
         "history:same-name-home": n,
         "history:package": n,
+        "history:lib-path": 3 * n,
+        "lib_warm_hit_confirmed": 2 * n,
+        "set:lib_path_names": 3,
         "history:truncated": (6 if t else 5) * n,
         "history:killed": (5 if t else 2) * n,
         "history:race": n,
@@ -584,6 +587,9 @@ def g_content(cx):
         res = cx.run(h, runs=cx.argvs + [{"action": "copy", "src": ed, "dst": yml}] + cx.argvs)
         R.count("history:inproc-edit")
         judge(cx, res, cold + cold_e, "inproc-edit", "edit-between-rounds", variant=start, diff_key="cache/stale-after-edit/in-process")
+    # ---- a model given by path (library entry points, as tools embedding OSACA use them), file names a user may choose
+    for fname, where in ((cx.model + ".user.yml", "data"), ("my-" + cx.model + ".v2.yml", "cache"), (cx.model + "_custom.yml", "data")):
+        lib_path_history(cx, fname, where, orig, edited)
     # ---- package model shadowed by a user file of the same name with other content, one shared home cache
     hS = cx.new_home(files=[cx.files[1]])
     res = cx.run(hS, deny=[cx.data_dir(hS)])
@@ -596,6 +602,54 @@ def g_content(cx):
     os.unlink(os.path.join(cx.data_dir(hS), cx.model + ".yml"))
     res = cx.run(hS, deny=[cx.data_dir(hS)])
     judge(cx, res, cold, "same-name-home", "shadow-removed", variant="shadow", diff_key="cache/stale-after-edit/shadow")
+
+
+def lib_path_history(cx, fname, where, orig, edited):
+    """cold -> warm -> edited -> reverted for a model file loaded by path; reference = the same content loaded cold elsewhere."""
+    R = cx.R
+
+    def lib_runs(path):
+        return [{"action": "lib", "model": path, "kernel": k} for k in cx.kernels]
+
+    def fresh(text, tag):
+        h = cx.new_home()
+        d = os.path.join(h, "models-" + tag)
+        os.makedirs(d)
+        pth = os.path.join(d, "reference.yml")
+        write_private(pth, text)
+        return cx.run(h, runs=lib_runs(pth))["reports"]
+
+    ref_o, ref_e = fresh(orig, "o"), fresh(edited, "e")
+    if len(ref_o) != len(cx.kernels) or len(ref_e) != len(cx.kernels) or any(r["rc"] for r in ref_o + ref_e):
+        R.count("lib_reference_failed")
+        R.inconclusive += 1
+        return
+    if all(a["out"] == b["out"] for a, b in zip(ref_o, ref_e)):
+        R.count("lib_edit_without_effect")
+        R.inconclusive += 1
+        return
+    h = cx.new_home()
+    d = os.path.join(h, "models")
+    os.makedirs(d)
+    pth = os.path.join(d, fname)
+    deny = [d] if where == "cache" else []
+    hist = "lib-path"
+    variant = "%s/%s" % ("dotted" if fname.count(".") > 1 else "plain", where)
+    write_private(pth, orig)
+    R.count("history:lib-path")
+    R.observe("lib_path_names", variant)
+    res = cx.run(h, runs=lib_runs(pth), deny=deny)
+    judge(cx, res, ref_o, hist, "cold", variant=variant)
+    res = cx.run(h, runs=lib_runs(pth), deny=deny)
+    if hits(res) >= 1:
+        R.count("lib_warm_hit_confirmed")
+    judge(cx, res, ref_o, hist, "warm", variant=variant)
+    write_private(pth, edited)
+    res = cx.run(h, runs=lib_runs(pth), deny=deny)
+    judge(cx, res, ref_e, hist, "after-edit", variant=variant, diff_key="cache/stale-after-edit/model-by-path")
+    write_private(pth, orig)
+    res = cx.run(h, runs=lib_runs(pth), deny=deny)
+    judge(cx, res, ref_o, hist, "after-revert", variant=variant, diff_key="cache/stale-after-edit/model-by-path-revert")
 
 
 CUTS = ["zero", "header", "middle", "last-byte"]
